@@ -100,11 +100,19 @@ pub fn deser_line(l: &str) -> String {
             // a context that loaded must be usable: print every variable, apply it, save again
             let mut after = Vec::new();
             for name in ["v0", "v1", "v2", "v3", "f0", "f1", "_", "ans"] {
-                let a = ev_ms(&mut c.clone(), name, 150);
-                let b = ev_ms(&mut c.clone(), &format!("{name} 2"), 150);
-                let d = ev_ms(&mut c.clone(), &format!("{name} to hex"), 150);
-                if a.starts_with("panic") || b.starts_with("panic") || d.starts_with("panic") {
-                    after.push(format!("{name}:{a}/{b}/{d}"));
+                // does the variable exist at all? (cheap check so absent names cost one evaluation)
+                let a = ev_ms(&mut c.clone(), name, 40);
+                if a.starts_with("err unknown identifier") {
+                    continue;
+                }
+                let mut bad = vec![];
+                if a.starts_with("panic") { bad.push(a.clone()); }
+                for tmpl in ["{} 2", "{} to hex", "{} + 1 day", "{} - 1 day", "{} - 1 month", "{} + 1", "{} * {}", "-{}", "{} to fraction", "{} to 3 sf", "sqrt {}", "{} == {}", "roll {}"] {
+                    let r = ev_ms(&mut c.clone(), &tmpl.replace("{}", name), 40);
+                    if r.starts_with("panic") { bad.push(format!("`{}`: {r}", tmpl.replace("{}", name))); }
+                }
+                if !bad.is_empty() {
+                    after.push(format!("{name}:{}", bad.join(" / ")));
                 }
             }
             let mut out = Vec::new();
